@@ -31,7 +31,7 @@ macro_rules! uniform_harnesses {
                 match m.left_cumulative_and_probability(s) {
                     None => assert!(s >= range, "C03: in-support symbol reported as impossible by UniformModel"),
                     Some((cum, p)) => {
-                        assert!(s < range, "C09: UniformModel accepted a symbol outside its support");
+                        assert!(s < range, "C09/C03: UniformModel accepted a symbol outside its support (outside the support the probability must be zero)");
                         if s < range {
                             let (cum, p) = (cum as u64, p.get() as u64);
                             assert!(p >= 1 && cum + p <= TOTAL && p < TOTAL, "C03: UniformModel entry not a proper sub-interval");
@@ -130,7 +130,7 @@ where M: EncoderModel<PREC, Symbol = usize, Probability = u8> + DecoderModel<PRE
     match m.left_cumulative_and_probability(s) {
         None => assert!(s >= n, "C03: model reports an in-support symbol as impossible"),
         Some((cum, p)) => {
-            assert!(s < n, "C09: model accepted a symbol outside its support");
+            assert!(s < n, "C09/C03: model accepted a symbol outside its support");
             if s < n {
                 let (cum, p) = (cum as u32, p.get() as u32);
                 assert!(p != 0, "C20/C03: a zero value inside a non-zero probability type");
@@ -346,6 +346,25 @@ pub fn lazy_table_length_p2() {
             assert!(l.left_cumulative_and_probability(sq) == Some((cq, pq)), "C19/C03: accepted lazy model: quantile_function disagrees with the encoder view");
         }
     }
+}
+
+/// C20 / C10 (bounded: one table, P = 3 < Probability::BITS): the non-contiguous lookup decoder over ANY
+/// quantile value of the probability type, also those >= 2^P that a direct caller may pass: it may panic
+/// (documented assertion) but never index its 2^P-entry table out of bounds; in-range quantiles get the
+/// entry that holds them.
+#[cfg_attr(kani, kani::proof)]
+#[cfg_attr(kani, kani::unwind(12))]
+pub fn lookup_noncontiguous_any_quantile_p3() {
+    const P: usize = 3;
+    let probs: [u8; 3] = [3, 3, 2];
+    let syms: [u16; 3] = [10, 20, 30];
+    let d = match NonContiguousLookupDecoderModel::<u16, u8, Vec<(u8, u16)>, Box<[u8]>, P>::from_symbols_and_nonzero_fixed_point_probabilities(syms.iter().copied(), &probs[..], false) {
+        Ok(d) => d, Err(()) => { assert!(false, "C19: valid table refused by the non-contiguous lookup constructor"); return; } };
+    let q: u8 = any();
+    let (s, c, p) = d.quantile_function(q);
+    let i = if q < 3 { 0 } else if q < 6 { 1 } else { 2 };
+    assert!(q < 8, "C20/C10: the lookup model answered a quantile outside [0, 2^P) instead of refusing it");
+    assert!(s == syms[i] && c as usize == 3 * i && p.get() == probs[i], "C10/C03: non-contiguous lookup decoder returns the wrong entry");
 }
 
 // ------------------------------------------------------------------ float tables (bounded: <= 3 entries, f32)
